@@ -9,10 +9,156 @@ import (
 	"runtime"
 	"strings"
 
+	"encoding/hex"
+	"reflect"
+
 	"gitlab.com/aquachain/aquachain/crypto"
 	"gitlab.com/aquachain/aquachain/rlp"
+	"gitlab.com/aquachain/aquachain/verifharness/rlptypes"
 	"gitlab.com/aquachain/aquachain/verifharness/vh"
 )
+
+// header bytes of the canonical encoding of a (kind, content) pair — an
+// independent re-implementation used only by the direct oracle
+func canonHeader(list bool, content []byte) []byte {
+	off := byte(0x80)
+	if list {
+		off = 0xc0
+	}
+	n := len(content)
+	if !list && n == 1 && content[0] < 0x80 {
+		return nil
+	}
+	if n < 56 {
+		return []byte{off + byte(n)}
+	}
+	var be []byte
+	for x := n; x > 0; x >>= 8 {
+		be = append([]byte{byte(x)}, be...)
+	}
+	return append([]byte{off + 55 + byte(len(be))}, be...)
+}
+
+// treeMutate: decode b into an item tree, change one node (leaf string replaced by a
+// boundary string, kind flipped, element added / dropped / duplicated) and re-encode
+// canonically: structurally valid RLP that deviates at the type level.
+func treeMutate(r *vh.RNG, b []byte) ([]byte, bool) {
+	var tree interface{}
+	if err := rlp.DecodeBytes(b, &tree); err != nil {
+		return nil, false
+	}
+	var nodes []*interface{}
+	var walk func(p *interface{})
+	walk = func(p *interface{}) {
+		nodes = append(nodes, p)
+		if l, ok := (*p).([]interface{}); ok {
+			for i := range l {
+				walk(&l[i])
+			}
+		}
+	}
+	walk(&tree)
+	p := nodes[r.Intn(len(nodes))]
+	switch x := (*p).(type) {
+	case []byte:
+		switch r.Intn(10) {
+		case 0:
+			*p = []byte{0x00}
+		case 1:
+			*p = append([]byte{0x00}, x...) // leading zero
+		case 2:
+			*p = []byte{}
+		case 3:
+			*p = []byte{0x02}
+		case 4:
+			*p = append(append([]byte{}, x...), 0x01) // one byte longer
+		case 5:
+			if len(x) > 0 {
+				*p = x[:len(x)-1] // one byte shorter
+			} else {
+				*p = []byte{0x80}
+			}
+		case 6:
+			*p = []interface{}{} // string -> empty list
+		case 7:
+			*p = []interface{}{x} // wrapped in a list
+		case 8:
+			*p = r.Bytes(9) // too wide for uint64
+		default:
+			*p = []byte{0x01}
+		}
+	case []interface{}:
+		switch r.Intn(5) {
+		case 0:
+			*p = append(append([]interface{}{}, x...), []byte{})
+		case 1:
+			if len(x) > 0 {
+				*p = x[:len(x)-1]
+			} else {
+				*p = []byte{}
+			}
+		case 2:
+			if len(x) > 0 {
+				*p = append(append([]interface{}{}, x...), x[len(x)-1])
+			} else {
+				*p = []interface{}{[]interface{}{}}
+			}
+		case 3:
+			*p = []byte{} // list -> empty string
+		default:
+			if len(x) > 1 {
+				y := append([]interface{}{}, x...)
+				y[0], y[1] = y[1], y[0]
+				*p = y
+			} else {
+				*p = []interface{}{[]byte{0x01}}
+			}
+		}
+	}
+	out, err := rlp.EncodeToBytes(tree)
+	return out, err == nil
+}
+
+// typed: decode b into the public Go type and re-encode; compare with the model's
+// typed_recode; direct oracle: an accepted input re-encodes to itself.
+func typedCheck(c *vh.Ctx, m *vh.Model, e rlptypes.Entry, class string, b []byte, mustAccept bool) {
+	hx := vh.Hex(b)
+	var observed string
+	var b2 []byte
+	accepted := false
+	p, pv := vh.CatchPanic(func() {
+		ptr := reflect.New(e.Type)
+		if err := rlp.DecodeBytes(b, ptr.Interface()); err != nil {
+			observed = "err"
+			return
+		}
+		var err error
+		b2, err = rlp.EncodeToBytes(ptr.Interface())
+		if err != nil {
+			observed = "encode-err " + err.Error()
+			return
+		}
+		accepted = true
+		observed = "ok " + vh.Hex(b2)
+	})
+	if p {
+		observed = fmt.Sprintf("panic %v", pv)
+		c.Violate("typed-panic/"+e.Name+"/"+hx, "typed decode/encode panics", map[string]string{"type": e.Name, "input": hx, "panic": fmt.Sprint(pv)})
+	}
+	key := ""
+	if accepted {
+		key = e.Name + hx
+	}
+	c.Eval("typed/"+e.Name+"/"+class, key)
+	c.Correspond("DecodeBytes+EncodeToBytes("+e.Name+")~typed_recode", e.Name+" "+hx, observed, m.Ask("typed 0x"+hex.EncodeToString([]byte(e.Name))+" "+hx))
+	if accepted && !bytes.Equal(b2, b) {
+		c.Violate("typed-noncanonical-accept/"+e.Name+"/"+hx, "typed decoding accepts an input that is not the encoding of the value it yields",
+			map[string]string{"type": e.Name, "input": hx, "reencoded": vh.Hex(b2)})
+	}
+	if mustAccept && !accepted {
+		c.Violate("typed-roundtrip/"+e.Name+"/"+hx, "the encoding of a valid value is rejected", map[string]string{"type": e.Name, "input": hx, "observed": observed})
+	}
+}
 
 func render(v interface{}) string {
 	switch x := v.(type) {
@@ -95,6 +241,30 @@ func checkInput(c *vh.Ctx, m *vh.Model, class string, b []byte) {
 	c.Correspond("DecodeBytes(interface{})~decode_exact", hx, o.exact, m.Ask("decode_exact "+hx))
 	c.Correspond("Split~split", hx, o.split, m.Ask("split "+hx))
 	c.Correspond("CountValues~count_values", hx, o.count, m.Ask("count "+hx))
+	if strings.HasPrefix(o.split, "ok ") {
+		// direct oracle for Split: header(kind, content) ++ content ++ rest is the input
+		k, content, rest, _ := rlp.Split(b)
+		re := append(append(canonHeader(k == rlp.List, content), content...), rest...)
+		if !bytes.Equal(re, b) {
+			c.Violate("split-noncanonical-accept/"+hx, "rlp.Split accepts a non-canonical header", map[string]string{"input": hx, "canonical": vh.Hex(re)})
+		}
+	}
+	if strings.HasPrefix(o.count, "ok ") {
+		// direct oracle for CountValues: splitting that many times consumes the input canonically
+		rest := b
+		for len(rest) > 0 {
+			k, content, r2, err := rlp.Split(rest)
+			if err != nil {
+				c.Violate("count-accepts-what-split-rejects/"+hx, "CountValues accepts a sequence Split rejects", map[string]string{"input": hx})
+				break
+			}
+			if !bytes.Equal(append(append(canonHeader(k == rlp.List, content), content...), r2...), rest) {
+				c.Violate("count-noncanonical-accept/"+hx, "CountValues accepts a non-canonical header", map[string]string{"input": hx})
+				break
+			}
+			rest = r2
+		}
+	}
 	if ok {
 		// direct oracle: whatever decodes re-encodes to exactly the input
 		enc, err := rlp.EncodeToBytes(v)
@@ -237,6 +407,67 @@ func main() {
 		if d := ms1.TotalAlloc - ms0.TotalAlloc; d > 1<<20 {
 			c.Violate("alloc-unbounded/"+vh.Hex(pre), "decoding a short input with a huge declared size allocated more than 1 MiB",
 				map[string]interface{}{"input": vh.Hex(pre), "allocated": d})
+		}
+	}
+	// 5. typed layer: every generated consensus / storage descriptor
+	nTyped := c.Scale(60, 1500)
+	for _, e := range rlptypes.Registry() {
+		for i := 0; i < nTyped; i++ {
+			wire := rlptypes.Fill(c.Rng, e.Type, 3)
+			enc, err := rlp.EncodeToBytes(wire.Interface())
+			if err != nil {
+				c.Fatal("encode of generated %s failed: %v", e.Name, err)
+			}
+			typedCheck(c, m, e, "valid", enc, true)
+			if i == 0 {
+				c.Sample(map[string]string{"type": e.Name, "encoding": vh.Hex(enc)})
+			}
+			for k := 0; k < 24; k++ {
+				if mut, ok := treeMutate(c.Rng, enc); ok {
+					typedCheck(c, m, e, "tree-mut", mut, false)
+				}
+			}
+			for k := 0; k < 12 && len(enc) > 0; k++ {
+				mut := append([]byte{}, enc...)
+				switch c.Rng.Intn(7) {
+				case 0:
+					mut[c.Rng.Intn(len(mut))] = alphabet[c.Rng.Intn(len(alphabet))]
+					typedCheck(c, m, e, "mut-byte", mut, false)
+				case 1:
+					mut[c.Rng.Intn(len(mut))] ^= 1 << uint(c.Rng.Intn(8))
+					typedCheck(c, m, e, "mut-bit", mut, false)
+				case 2:
+					typedCheck(c, m, e, "truncated", mut[:c.Rng.Intn(len(mut))], false)
+				case 3:
+					typedCheck(c, m, e, "extended", append(mut, alphabet[c.Rng.Intn(len(alphabet))]), false)
+				case 4: // swap an empty string for an empty list or vice versa (nil-pointer kinds)
+					var pos []int
+					for j, x := range mut {
+						if x == 0x80 || x == 0xc0 {
+							pos = append(pos, j)
+						}
+					}
+					if len(pos) > 0 {
+						j := pos[c.Rng.Intn(len(pos))]
+						mut[j] ^= 0x40
+						typedCheck(c, m, e, "swap-empty-kind", mut, false)
+					}
+				case 5: // insert a leading zero into / wrap some element: splice a byte and fix nothing (usually rejected)
+					j := c.Rng.Intn(len(mut))
+					mut = append(mut[:j], append([]byte{[]byte{0x00, 0x80, 0x81, 0xc0}[c.Rng.Intn(4)]}, mut[j:]...)...)
+					typedCheck(c, m, e, "spliced", mut, false)
+				case 6: // element-count changes: re-wrap the outer list around payload plus/minus an element
+					if k, content, _, err := rlp.Split(mut); err == nil && k == rlp.List {
+						var payload []byte
+						if c.Rng.Bool() {
+							payload = append(append([]byte{}, content...), []byte{0x80, 0x01, 0xc0}[c.Rng.Intn(3)])
+						} else if _, _, rest, err := rlp.Split(content); err == nil {
+							payload = rest // drop the first element
+						}
+						typedCheck(c, m, e, "rewrapped", append(canonHeader(true, payload), payload...), false)
+					}
+				}
+			}
 		}
 	}
 	c.Assume("Go reflect and the rlp typecache are exercised only through interface{}/[]byte/[]uint64 targets in this item-level check; typed consensus structures are covered by the typed layer")
